@@ -269,6 +269,9 @@ func funcWorker(j fjob) fres {
 type e2eCfg struct {
 	MaxShardPointCount int64 `json:"mspc"`
 	Quota              int64 `json:"quota"`
+	// MaxCols: the plan's MaxCollections when SetMaxCols (otherwise 2); 0 is a legal plan that allows no collection
+	MaxCols    int  `json:"maxCols,omitempty"`
+	SetMaxCols bool `json:"setMaxCols,omitempty"`
 }
 
 type opRef struct {
@@ -300,6 +303,9 @@ func e2eFactory(raw json.RawMessage) (seqx.System, error) {
 	plan := cl.Plan()
 	plan.MaxCollectionPointCount = c.Quota
 	plan.MaxCollections = 2
+	if c.SetMaxCols {
+		plan.MaxCollections = c.MaxCols
+	}
 	return &e2eSys{node: node, root: root, cfg: c, plan: plan, pts: map[string]map[int]int{}, cols: map[string]bool{}, nextId: 1}, nil
 }
 
@@ -619,9 +625,14 @@ func master(cfg *harness.Config, rep *harness.Report) {
 	var specs []seqx.Spec
 	for _, mspc := range []int64{2, 3} {
 		for _, q := range []int64{4, 5} {
-			specs = append(specs, seqx.Spec{Name: fmt.Sprintf("node/maxShardPoints%d/quota%d", mspc, q), Cfg: e2eCfg{mspc, q}, Alphabet: alpha, Depth: depth, Dedup: true, Starts: [][]any{{opRef{"create c1"}}}})
+			specs = append(specs, seqx.Spec{Name: fmt.Sprintf("node/maxShardPoints%d/quota%d", mspc, q), Cfg: e2eCfg{MaxShardPointCount: mspc, Quota: q}, Alphabet: alpha, Depth: depth, Dedup: true, Starts: [][]any{{opRef{"create c1"}}}})
 		}
 	}
+	// plans that allow no collection at all, or exactly one
+	creates := []any{opRef{"create c1"}, opRef{"create c2"}, opRef{"insert 1"}}
+	specs = append(specs,
+		seqx.Spec{Name: "node/maxCollections0", Cfg: e2eCfg{MaxShardPointCount: 2, Quota: 4, SetMaxCols: true, MaxCols: 0}, Alphabet: creates[:2], Depth: 2, Dedup: true},
+		seqx.Spec{Name: "node/maxCollections1", Cfg: e2eCfg{MaxShardPointCount: 2, Quota: 4, SetMaxCols: true, MaxCols: 1}, Alphabet: creates, Depth: 3, Dedup: true})
 	seqx.Explore(cfg, rep, p, specs)
 }
 
